@@ -73,7 +73,7 @@ def run(tier):
     R.run_traces(V, PID, tier, sd, lambda rnd: [("refbin",), ("winsum", rnd.choice([60, 90]), rnd.choice([120, 200]), rnd.choice([60, 150]))], n_quick=8, n_thorough=40,
                  # long records with short segments: top bins have K far above the NumPy kernels' chunk sizes (8192/16384/32768)
                  extra=[dict(N=150000, fs=1.0, data="drift", sched="ltf", win="hann", order=o, backend="numpy", Jdes=12, Kdes=20, Lmin=1, psll=120)
-                        for o in ((-1, 1) if tier == "quick" else (-1, 0, 1, 2))] +
+                        for o in ((-1, 2) if tier == "quick" else (-1, 0, 1, 2))] +
                        # constant offsets 1e12 times the fluctuations, all bins outside the 200 dB main lobe; reference = the definition in long double
                        [dict(N=60000, fs=10.0, data="hugeoffset", sched="ltf", win="kaiser", order=0, backend="numpy", Jdes=40, Kdes=20, Lmin=1, psll=200,
                              refdef=True, bmin=10.0)])
